@@ -480,7 +480,16 @@ def r178(ctx, repo):
     for rel in (H5EV, HIEV, "dclab/rtdc_dataset/feat_basin.py"):
         tree = repo.tree(rel)
         for cls in [c for c in tree.body if isinstance(c, ast.ClassDef)]:
-            for m in [f for f in cls.body if isinstance(f, ast.FunctionDef)]:
+            # (a fill delegated to a private helper is followed)
+            meths = []
+            for f in cls.body:
+                if isinstance(f, ast.FunctionDef):
+                    g = inline_helpers(repo, rel, f)
+                    from ..core import link as _link
+                    _link(g)
+                    g.parent = cls
+                    meths.append(g)
+            for m in meths:
                 for r in [x for x in walk(m) if isinstance(x, ast.Return)]:
                     v = r.value
                     memo = None
@@ -497,9 +506,8 @@ def r178(ctx, repo):
                     if memo is None:
                         continue
                     # is it an array memo filled lazily in this class?
-                    fills = [a for f2 in cls.body
-                             if isinstance(f2, ast.FunctionDef)
-                             and f2.name != "__init__"
+                    fills = [a for f2 in meths
+                             if f2.name != "__init__"
                              for a in walk(f2) if isinstance(a, ast.Assign)
                              and any(is_self_attr(t, memo)
                                      for t in a.targets)]
@@ -518,8 +526,8 @@ def r178(ctx, repo):
                             rid, lambda n_: n_.id in fill_ids)
                         for rid in mcfg.ids_of(st_r))
                     other_reads = False
-                    for f2 in cls.body:
-                        if not isinstance(f2, ast.FunctionDef) or f2 is m:
+                    for f2 in meths:
+                        if f2 is m:
                             continue
                         for x in walk(f2):
                             if is_self_attr(x, memo) and isinstance(
@@ -554,6 +562,23 @@ def r178(ctx, repo):
                                     or f"self.{memo}.flags.writeable = False" \
                                     in t_:
                                 okp = True
+                        # the object was protected under a local name just
+                        # before it was stored (no re-binding in between)
+                        if not okp and isinstance(a.value, ast.Name) \
+                                and a in blk:
+                            nm_ = a.value.id
+                            for st in reversed(blk[:blk.index(a)]):
+                                t_ = txt(st)
+                                if isinstance(st, ast.Assign) and any(
+                                        isinstance(t2, ast.Name)
+                                        and t2.id == nm_
+                                        for t2 in st.targets):
+                                    break
+                                if f"{nm_}.setflags(write=False)" in t_ or \
+                                        f"{nm_}.flags.writeable = False" \
+                                        in t_:
+                                    okp = True
+                                    break
                         prot = prot and okp
                     ctx.ob("R17.8", prot,
                            f"{cls.name}.{m.name} hands out the memo "
